@@ -364,6 +364,10 @@ def run(ctx):
     check_bank_prefix(db, rep, "D14-BANK-PREFIX")
     from x86enc import check_names_stateless
     check_names_stateless(db, rep, "D15-NAMES-STATELESS")
+    from x86enc import check_gp_name_width
+    check_gp_name_width(db, rep, "D16-GP-NAME-WIDTH")
+    from x86enc import check_vex_listing_assembles
+    check_vex_listing_assembles(db, rep, "D17-VEX-LISTING-ASSEMBLES", ctx.scratch)
     from vexroles import check_vex_rxb_roles
     nvr = check_vex_rxb_roles(db, rep, "D12-VEX-RXB-ROLES")
     if nvr < 5:
